@@ -10,7 +10,8 @@
      name_ok  : every OID has at least two arcs (every DER-decoded OID has); every string value is
                 valid UTF-8 (valid_utf8 = Go's utf8.ValidString: PrintableString, IA5String and
                 UTF8String contents are); every non-string value has a DER encoding
-                (marshal v <> []: the named exclusion of known finding F31e, a nil value).
+                (marshal v <> []: excludes only a Go nil, which FromRawDN no longer produces
+                since repair F31e; see C15_nil_value_unreadable).
      patv_of  : what the reader must return for one attribute: (displayed type, PStr s | PHex der).
      akey     : the attribute itself: (OID, PStr s | PHex der). *)
 From WI Require Import Lib.Base Lib.Info Lib.Utf8 Lib.Rfc4514 Model.Dn Proofs.Dn.
@@ -139,8 +140,8 @@ Theorem C15_nonstring_refuted :
 Proof. exact nonstring_refuted_before. Qed.
 Print Assumptions C15_nonstring_refuted.
 
-(* known finding F31e (not repaired): a value without DER (Go nil) is printed as a bare '#';
-   this is the case name_ok excludes *)
+(* the case name_ok excludes: FromRDNSequence called directly with a nil value (before repair
+   F31e FromRawDN produced it for types encoding/asn1 does not decode) prints a bare '#' *)
 Theorem C15_nil_value_unreadable : parse_dn (render_dn [[(cn, GNil)]]) = None.
 Proof. exact nil_value_unreadable. Qed.
 Print Assumptions C15_nil_value_unreadable.
